@@ -198,6 +198,9 @@ class FieldData:
       if fieldname in self._data:
         self._data.pop(fieldname)
     else:
+      # (the accessor of a tag outlives the tag: a tag set again after it was
+      # deleted has no datatype on record and gets the default one)
+      self._field_or_default_datatype(fieldname, value)
       self._data[fieldname] = value
     if renaming_connected:
       self._gfa._register_line(self)
